@@ -81,3 +81,20 @@ pub fn run_job(ctx: &mut WorkerCtx, job: &Value) -> JobOutput {
         },
     }
 }
+
+/// Ask the LD_PRELOAD shim (if loaded) to make every monotonic-clock read of the calling thread
+/// `ns` nanoseconds later than the previous one (the clock of a slow or stalled machine).
+pub fn set_mono_step(ns: i64) {
+    unsafe {
+        let f = libc::dlsym(libc::RTLD_DEFAULT, b"verifshim_mono_step\0".as_ptr() as *const libc::c_char);
+        if !f.is_null() {
+            let f: extern "C" fn(i64) = std::mem::transmute(f);
+            f(ns);
+        }
+    }
+}
+
+/// Step configured for this worker process (VERIF_MONO_STEP_NS), 0 = real clock.
+pub fn mono_step_from_env() -> i64 {
+    std::env::var("VERIF_MONO_STEP_NS").ok().and_then(|s| s.parse().ok()).unwrap_or(0)
+}
